@@ -320,6 +320,10 @@ fn emit_case(out: &mut Out, rng: &mut Rng, models: &[TableDef], history: &[Migra
 fn main() {
     let args: Vec<String> = std::env::args().collect();
     let cmd = args.get(1).cloned().unwrap_or_default();
+    if cmd == "names" {
+        names_main(&args);
+        return;
+    }
     if cmd != "gen" {
         eprintln!("usage: hm1 gen --seed S --evolutions N --steps K --out DIR");
         std::process::exit(2);
@@ -397,4 +401,214 @@ fn main() {
     )
     .unwrap();
     println!("cases={} shards={} rejected_edits={}", out.side.len(), names.len(), rejected);
+}
+
+
+// ------------------------------------------------------------------------------------------ C19: names
+#[derive(Clone, PartialEq, Eq, Debug)]
+enum Obj {
+    Index(String, Vec<String>, Option<String>),
+    Unique(String, Vec<String>, Option<String>),
+    Fk(String, Vec<String>, Option<String>),
+    Check(String, String),
+    EnumType(String, String),
+    Table(String),
+    TempTable(String),
+}
+impl Obj {
+    fn name(&self) -> String {
+        use vespertide_naming::*;
+        match self {
+            Obj::Index(t, c, k) => build_index_name(t, c, k.as_deref()),
+            Obj::Unique(t, c, k) => build_unique_constraint_name(t, c, k.as_deref()),
+            Obj::Fk(t, c, k) => build_foreign_key_name(t, c, k.as_deref()),
+            Obj::Check(t, c) => build_check_constraint_name(t, c),
+            Obj::EnumType(t, e) => build_enum_type_name(t, e),
+            Obj::Table(n) => n.clone(),
+            Obj::TempTable(t) => format!("{}_temp", t),
+        }
+    }
+    fn namespaces(&self) -> &'static [u8] {
+        // 0 relation, 1 constraint, 2 type (coq/m1/Model/NamePlain.v `namespaces`)
+        match self {
+            Obj::Index(..) => &[0],
+            Obj::Unique(..) => &[0, 1],
+            Obj::Fk(..) => &[1],
+            Obj::Check(..) => &[1],
+            Obj::EnumType(..) => &[2],
+            Obj::Table(..) => &[0, 2],
+            Obj::TempTable(..) => &[0],
+        }
+    }
+    fn gs(&self) -> String {
+        let mut o = String::new();
+        match self {
+            Obj::Index(t, c, k) => app(&mut o, "OIndex", &[t, c, k]),
+            Obj::Unique(t, c, k) => app(&mut o, "OUnique", &[t, c, k]),
+            Obj::Fk(t, c, k) => app(&mut o, "OForeignKey", &[t, c, k]),
+            Obj::Check(t, c) => app(&mut o, "OCheck", &[t, c]),
+            Obj::EnumType(t, e) => app(&mut o, "OEnumType", &[t, e]),
+            Obj::Table(n) => app(&mut o, "OTable", &[n]),
+            Obj::TempTable(t) => app(&mut o, "OTempTable", &[t]),
+        }
+        o
+    }
+}
+
+fn objects_of(models: &[TableDef]) -> Vec<Obj> {
+    let mut out = vec![];
+    for t in models {
+        let Ok(n) = t.normalize() else { continue };
+        out.push(Obj::Table(n.name.clone()));
+        for k in &n.constraints {
+            match k {
+                TableConstraint::Index { name, columns } => out.push(Obj::Index(n.name.clone(), columns.clone(), name.clone())),
+                TableConstraint::Unique { name, columns } => out.push(Obj::Unique(n.name.clone(), columns.clone(), name.clone())),
+                TableConstraint::ForeignKey { name, columns, .. } => out.push(Obj::Fk(n.name.clone(), columns.clone(), name.clone())),
+                _ => {}
+            }
+        }
+        let mut seen = BTreeSet::new();
+        for c in &n.columns {
+            if let vespertide_core::ColumnType::Complex(vespertide_core::ComplexColumnType::Enum { name, values }) = &c.r#type {
+                if values.is_string() && seen.insert(name.clone()) {
+                    out.push(Obj::EnumType(n.name.clone(), name.clone()));
+                }
+                // SQLite: one CHECK per enum column
+                out.push(Obj::Check(n.name.clone(), c.name.clone()));
+            }
+        }
+    }
+    out.dedup();
+    out
+}
+
+fn ident(rng: &mut Rng) -> String {
+    let alphabet = ["a", "b", "_", "c", "__", "ab", "x_y"];
+    let n = rng.range(1, 3);
+    let mut s = String::new();
+    for _ in 0..n {
+        s.push_str(*rng.pick(&alphabet[..]));
+    }
+    s
+}
+
+fn names_main(args: &[String]) {
+    let seed: u64 = arg(args, "--seed", "1").parse().unwrap_or(1);
+    let n: usize = arg(args, "--n", "300").parse().unwrap();
+    let sets: usize = arg(args, "--sets", "200").parse().unwrap();
+    let outdir = PathBuf::from(arg(args, "--out", "out"));
+    let mut rng = Rng::new(seed ^ 0x19);
+    // K-name: random descriptors over an alphabet rich in underscores
+    let mut cases = vec![];
+    for _ in 0..n {
+        let t = ident(&mut rng);
+        let cols: Vec<String> = (0..rng.range(0, 3)).map(|_| ident(&mut rng)).collect();
+        let key = if rng.chance(1, 3) { Some(ident(&mut rng)) } else { None };
+        let o = match rng.below(7) {
+            0 => Obj::Index(t, cols, key),
+            1 => Obj::Unique(t, cols, key),
+            2 => Obj::Fk(t, cols, key),
+            3 => Obj::Check(t, ident(&mut rng)),
+            4 => Obj::EnumType(t, ident(&mut rng)),
+            5 => Obj::Table(t),
+            _ => Obj::TempTable(t),
+        };
+        cases.push(format!("({}, {})", o.gs(), o.name().gs()));
+    }
+    let header = "From VV.M1 Require Import NamePlain.\n";
+    let tail = "Definition bad := flat_map (fun c : named_object * string => if String.eqb (object_name (fst c)) (snd c) then [] else [snd c]) cases.\nEval vm_compute in List.length bad.\n";
+    vcommon::write_shards(&outdir, "cases_names", header, "(named_object * string)", &cases, 400, tail).unwrap();
+    // collision oracle on generated model sets (loader accepted, collision-biased identifier pool)
+    let mut side = String::new();
+    let mut pairs = vec![];
+    let mut rejected = 0usize;
+    for si in 0..sets {
+        let profile = if rng.chance(1, 2) { Profile::Engine } else { Profile::Loader };
+        let evo = gener::gen_evolution(&mut rng, 2, profile, &mut rejected);
+        let mut m = evo.last().unwrap().clone();
+        // collision-biased injection: shapes whose derived names can coincide (kept only if the loader still accepts)
+        if !m.is_empty() && rng.chance(2, 3) {
+            let mut cand = m.clone();
+            let ti = rng.below(cand.len());
+            let tn = cand[ti].name.clone();
+            let icol = |n: &str| vcommon::gener::col(n, vespertide_core::ColumnType::Simple(vespertide_core::SimpleColumnType::Integer), true);
+            match rng.below(5) {
+                0 => {
+                    for n in ["a", "b", "a_b"] {
+                        if !cand[ti].columns.iter().any(|c| c.name == n) {
+                            cand[ti].columns.push(icol(n));
+                        }
+                    }
+                    cand[ti].constraints.push(TableConstraint::Index { name: None, columns: vec!["a_b".into()] });
+                    cand[ti].constraints.push(TableConstraint::Index { name: None, columns: vec!["a".into(), "b".into()] });
+                }
+                1 => {
+                    for n in ["a", "b", "c"] {
+                        if !cand[ti].columns.iter().any(|c| c.name == n) {
+                            cand[ti].columns.push(icol(n));
+                        }
+                    }
+                    cand[ti].constraints.push(TableConstraint::Unique { name: Some("a_b".into()), columns: vec!["c".into()] });
+                    cand[ti].constraints.push(TableConstraint::Unique { name: None, columns: vec!["a".into(), "b".into()] });
+                }
+                2 => {
+                    // enum type {table}_{enum} named like another table
+                    let en = "status";
+                    if !cand[ti].columns.iter().any(|c| c.name == "st") {
+                        cand[ti].columns.push(vcommon::gener::col("st", vespertide_core::ColumnType::Complex(vespertide_core::ComplexColumnType::Enum { name: en.into(), values: vespertide_core::EnumValues::String(vec!["x".into(), "y".into()]) }), true));
+                    }
+                    let other = format!("{}_{}", tn, en);
+                    if !cand.iter().any(|t| t.name == other) {
+                        let mut t2 = vcommon::gener::gen_table(&mut rng, &other, &[], Profile::Engine);
+                        t2.name = other;
+                        cand.push(t2);
+                    }
+                }
+                3 => {
+                    // a table called like the SQLite rebuild helper of another
+                    let other = format!("{}_temp", tn);
+                    if !cand.iter().any(|t| t.name == other) {
+                        let t2 = vcommon::gener::gen_table(&mut rng, &other, &[], Profile::Engine);
+                        cand.push(t2);
+                    }
+                }
+                _ => {
+                    for n in ["a", "x", "y"] {
+                        if !cand[ti].columns.iter().any(|c| c.name == n) {
+                            cand[ti].columns.push(icol(n));
+                        }
+                    }
+                    cand[ti].constraints.push(TableConstraint::Index { name: Some("a".into()), columns: vec!["x".into(), "y".into()] });
+                    cand[ti].constraints.push(TableConstraint::Index { name: None, columns: vec!["a".into()] });
+                }
+            }
+            if gener::loader_accepts(&cand) {
+                m = cand;
+            }
+        }
+        let m = &m;
+        let mut objs = objects_of(m);
+        // every table has a potential SQLite rebuild helper
+        let helpers: Vec<Obj> = objs.iter().filter_map(|o| if let Obj::Table(n) = o { Some(Obj::TempTable(n.clone())) } else { None }).collect();
+        objs.extend(helpers);
+        let mut coll = vec![];
+        for i in 0..objs.len() {
+            for j in (i + 1)..objs.len() {
+                let share = objs[i].namespaces().iter().any(|a| objs[j].namespaces().contains(a));
+                if share && objs[i] != objs[j] && objs[i].name() == objs[j].name() {
+                    coll.push(json!({"a": format!("{:?}", objs[i]), "b": format!("{:?}", objs[j]), "name": objs[i].name()}));
+                    pairs.push(format!("({}, {})", objs[i].gs(), objs[j].gs()));
+                }
+            }
+        }
+        let _ = writeln!(side, "{}", json!({"set": si, "n_objects": objs.len(), "collisions": coll, "models": m}));
+    }
+    std::fs::write(outdir.join("names.jsonl"), side).unwrap();
+    let tail2 = "Definition explained := map (fun p : named_object * named_object => (same_namespace (fst p) (snd p) && String.eqb (object_name (fst p)) (object_name (snd p)))%bool) cases.\nEval vm_compute in explained.\n";
+    if pairs.is_empty() {
+        pairs.push("(OTable \"\", OTable \"\")".to_string()); // placeholder so that the shard exists; not a collision (equal descriptors)
+    }
+    vcommon::write_shards(&outdir, "pairs_names", header, "(named_object * named_object)", &pairs, 100000, tail2).unwrap();
+    println!("name cases={} model sets={} colliding pairs={}", n, sets, pairs.len());
 }
